@@ -4,8 +4,11 @@ import (
 	"context"
 	"encoding/json"
 	"fmt"
+	"math"
 	"os"
 	"reflect"
+	"regexp"
+	"sort"
 	"strconv"
 	"strings"
 
@@ -40,6 +43,13 @@ func init() {
 	families["ctx"] = famCtx
 	families["dt"] = famDT
 	families["kv"] = famKV
+	// focused random families: paths of the general random generator that contain a given feature
+	families["fsub"] = famFocus("fsub", `\[[^\]]*[a-z@$(.-][^\]]*\]`)                              // a subscript that is not a plain non-negative integer
+	families["fkv"] = famFocus("fkv", `keyvalue\(\)[.\[ ]`)                                        // .keyvalue() followed by a further step
+	families["fdt"] = famFocus("fdt", `\?.*(datetime|date|time|time_tz|timestamp|timestamp_tz)\(`) // a datetime method inside a filter
+	families["fvar"] = famFocus("fvar", `\$[a-z]+(\.[a-z*]+|\[[^\]]*\])*\[[^\]]*@`)                // a variable-rooted operand subscripted by something that mentions @
+	families["share"] = famShare
+	families["walk"] = famWalk
 }
 
 func mustDoc(text string, useNumber bool) any {
@@ -617,6 +627,8 @@ type fileCase struct {
 	Role      string            `json:"role,omitempty"`
 	// per-value number representation (replays): when present they override Number —
 	// the document / exactly the listed variables are decoded with UseNumber (json.Number), the rest as float64
+	IntDoc  bool      `json:"intdoc,omitempty"` // integral float64 values of the document become int64 (see intify)
+	Share   bool      `json:"share,omitempty"`  // rebuild the document with deeply equal containers shared (see shareEqual)
 	NumDoc  *bool     `json:"numdoc,omitempty"`
 	NumVars *[]string `json:"numvars,omitempty"`
 }
@@ -668,6 +680,14 @@ func famFile(e *emitter, path string) {
 			group: fc.Group, role: fc.Role}
 		if fc.Family == "kv" {
 			cs.probe = kvRouteProbe
+		}
+		if fc.IntDoc {
+			cs.doc = intify(cs.doc)
+			cs.intDoc = true
+		}
+		if fc.Share {
+			cs.doc = shareEqual(cs.doc, map[string]any{})
+			cs.share = true
 		}
 		e.emit(cs)
 	}
@@ -1193,7 +1213,11 @@ func famKV(g *gen, e *emitter, n int) {
 			mode = "strict "
 		}
 		var text string
-		switch g.r.Intn(6) {
+		switch g.r.Intn(8) {
+		case 6:
+			text = mode + "$[*].keyvalue().value." + []string{"integer()", "double()", "bigint()", "boolean()", "a", "number()", "keyvalue()", "size()", "datetime()"}[g.r.Intn(9)]
+		case 7:
+			text = mode + "$[" + fmt.Sprint(g.r.Intn(3)) + "].keyvalue().value." + []string{"integer()", "double()", "a", "string()", "abs()"}[g.r.Intn(5)]
 		case 0:
 			text = mode + "$[*].keyvalue()"
 		case 1:
@@ -1202,5 +1226,386 @@ func famKV(g *gen, e *emitter, n int) {
 			text = mode + "$[*] ? (" + conds[g.r.Intn(len(conds))] + ").keyvalue()"
 		}
 		e.emit(caseSpec{family: "kv", text: text, doc: doc, probe: kvRouteProbe})
+	}
+}
+
+// famFocus: rejection sampling over the general random generator (gen.pathText): only paths whose text matches
+// the feature are kept, so that rare constructs are exercised in quantity without writing a template per construct.
+func famFocus(name, feature string) familyFn {
+	re := regexp.MustCompile(feature)
+	return func(g *gen, e *emitter, n int) {
+		if n <= 0 {
+			n = 20000
+		}
+		tries := 0
+		for emitted := 0; emitted < n && tries < 400*n; tries++ {
+			text := g.pathText()
+			if !re.MatchString(text) {
+				continue
+			}
+			emitted++
+			single := g.chance(0.6)
+			useNumber := g.chance(0.4)
+			var doc any
+			switch g.r.Intn(3) {
+			case 0:
+				doc = mustDoc(g.docText(3, single), useNumber)
+			case 1: // an array of objects, so that [*], subscripts and filters have something to work on
+				var parts []string
+				for i, k := 0, 1+g.r.Intn(4); i < k; i++ {
+					parts = append(parts, g.docText(2, single))
+				}
+				doc = mustDoc("["+strings.Join(parts, ",")+"]", useNumber)
+			default:
+				doc = mustDoc(`{"a":`+g.docText(2, single)+`,"b":`+g.docText(2, single)+`}`, useNumber)
+			}
+			e.emit(caseSpec{family: name, text: text, doc: doc, vars: g.varsFor(useNumber, single), useTZ: g.chance(0.3)})
+		}
+	}
+}
+
+// shareEqual rebuilds v so that containers that are deeply equal become ONE Go value stored at several
+// positions (documents assembled by Go code from reused pieces look like this; encoding/json never produces it).
+// The JSON tree — what the model and the specification see — is unchanged.
+func shareEqual(v any, seen map[string]any) any {
+	switch x := v.(type) {
+	case []any:
+		out := make([]any, len(x))
+		for i, e := range x {
+			out[i] = shareEqual(e, seen)
+		}
+		if len(out) == 0 {
+			return out
+		}
+		k := "a" + jsonS(out)
+		if old, ok := seen[k]; ok {
+			return old
+		}
+		seen[k] = out
+		return out
+	case map[string]any:
+		out := make(map[string]any, len(x))
+		for k, e := range x {
+			out[k] = shareEqual(e, seen)
+		}
+		if len(out) == 0 {
+			return out
+		}
+		k := "o" + jsonS(out)
+		if old, ok := seen[k]; ok {
+			return old
+		}
+		seen[k] = out
+		return out
+	default:
+		return v
+	}
+}
+
+// famShare: wildcards, recursive descent, subscripts and filters over documents with shared sub-values
+func famShare(g *gen, e *emitter, n int) {
+	if n <= 0 {
+		n = 20000
+	}
+	pieces := []string{`[1,2]`, `{"x":[1,2]}`, `{"a":1}`, `[[1],[1]]`, `{"k":{"x":[1,2]}}`, `[{"a":1},{"a":1}]`, `"s"`, `1`, `null`, `[]`, `{}`}
+	paths := []string{"$.**", "strict $.**", "$.**.x", "strict $.**.x", "$.**{1 to 2}", "$.**{last}", "$.**{2 to last}.a", "$[*]", "$.*", "$[*].*", "$.*[*]", "$.**[*]", "strict $.**[0]",
+		"$.** ? (@.a == 1)", "$[*] ? (exists(@.**.x))", "$.**.size()", "$.**.type()", "$[*].**{1}", "$.**{0 to 1}.**{0 to 1}", "strict $[*].**.a", "$[0 to last].**", "$.**[last]"}
+	for i := 0; i < n; i++ {
+		var parts []string
+		for j, k := 0, 2+g.r.Intn(3); j < k; j++ {
+			pc := pieces[g.r.Intn(len(pieces))]
+			switch g.r.Intn(4) {
+			case 0:
+				pc = `{"k":` + pc + `}`
+			case 1:
+				pc = `[` + pc + `,` + pieces[g.r.Intn(len(pieces))] + `]`
+			}
+			parts = append(parts, pc)
+		}
+		var text string
+		if g.chance(0.7) {
+			text = paths[g.r.Intn(len(paths))]
+		} else {
+			text = g.pathText()
+			if strings.Contains(text, "keyvalue") {
+				continue
+			}
+		}
+		var doc any
+		if g.chance(0.5) {
+			doc = mustDoc("["+strings.Join(parts, ",")+"]", false)
+		} else {
+			var ms []string
+			for j, pc := range parts {
+				ms = append(ms, fmt.Sprintf("%q:%s", keyPool[j%len(keyPool)], pc))
+			}
+			doc = mustDoc("{"+strings.Join(ms, ",")+"}", false)
+		}
+		e.emit(caseSpec{family: "share", text: text, doc: shareEqual(doc, map[string]any{}), share: true})
+	}
+}
+
+// ---- walk: document-directed random paths ----
+// The path is grown step by step; after each step the implementation itself is asked what the path so far
+// returns, and the next step is chosen to fit the first item (an existing key, an index in range, a method of
+// the item's type, a filter over the fields the elements have) with high probability and to misfit it otherwise.
+// Variables: $tbl (array of scalars), $n (small int), $s (string), $o (object).  Oracles stay the model and the spec.
+func famWalk(g *gen, e *emitter, n int) {
+	if n <= 0 {
+		n = 20000
+	}
+	ctx := context.Background()
+	for i := 0; i < n; i++ {
+		useNumber := g.chance(0.3)
+		var docText string
+		switch g.r.Intn(4) {
+		case 0:
+			docText = g.docText(3, false)
+		case 1:
+			var parts []string
+			for j, k := 0, 2+g.r.Intn(3); j < k; j++ {
+				parts = append(parts, fmt.Sprintf(`{"i":%d,"v":%s,"w":%s}`, g.r.Intn(3), g.scalarText(), g.docText(1, false)))
+			}
+			docText = "[" + strings.Join(parts, ",") + "]"
+		case 2:
+			docText = `{"a":` + g.docText(2, false) + `,"b":[` + g.scalarText() + "," + g.scalarText() + "," + g.scalarText() + `],"i":` + fmt.Sprint(g.r.Intn(3)) + "}"
+		default:
+			docText = "[" + g.docText(2, false) + "," + g.docText(2, false) + "," + g.scalarText() + "]"
+		}
+		doc := mustDoc(docText, useNumber)
+		tbl := []any{}
+		for j := 0; j < 3; j++ {
+			tbl = append(tbl, mustDoc(g.scalarText(), useNumber))
+		}
+		vars := map[string]any{"tbl": tbl, "n": int64(g.r.Intn(3)), "s": g.pick(strPool...), "o": mustDoc(`{"a":`+g.scalarText()+`,"i":1}`, useNumber)}
+		mode := g.pick("", "", "strict ")
+		text := g.pick("$", "$", "$", "$tbl", "$o")
+		cur := func() (any, bool) {
+			p, err := path.Parse(mode + text)
+			if err != nil {
+				return nil, false
+			}
+			res, err := p.Query(ctx, doc, exec.WithVars(vars), exec.WithSilent())
+			if err != nil || len(res) == 0 {
+				return nil, false
+			}
+			return res[0], true
+		}
+		steps := 1 + g.r.Intn(4)
+		for s := 0; s < steps; s++ {
+			v, ok := cur()
+			if !ok {
+				break
+			}
+			text += g.walkStep(v, 2)
+		}
+		if g.chance(0.15) {
+			text = g.pick("-", "+") + "(" + text + ")"
+		} else if g.chance(0.15) {
+			text = "(" + text + ") " + g.pick("+", "*", "-", "/", "%") + " " + g.pick("1", "2", "0", "$n", "0.5", "$tbl[0]")
+		} else if g.chance(0.1) {
+			text = text + " " + g.pick("==", "<", ">=", "!=") + " " + g.pick("1", `"a"`, "$n", "$tbl[1]", "null", "$s", "$tbl[*]", "$.b[*]", "$[*]")
+		} else if g.chance(0.05) {
+			text = g.pick("$tbl[*]", "$n", "$.b[*]") + " " + g.pick("==", "<", ">=", "!=") + " " + text
+		} else if g.chance(0.05) {
+			text = "(" + text + " " + g.pick("==", "<") + " " + g.pick("1", "$n", `"a"`) + ")" + g.pick("[0]", ".type()", ".a", "[*]", ".string()", " ? (@ == true)")
+		}
+		cs := caseSpec{family: "walk", text: mode + text, doc: doc, vars: vars, useTZ: g.chance(0.3), tzOff: []int{0, 19800, -18000}[g.r.Intn(3)]}
+		if !useNumber && g.chance(0.35) {
+			cs.doc = intify(doc)
+			cs.intDoc = true
+		}
+		e.emit(cs)
+	}
+}
+
+func (g *gen) walkIndex(n int) string {
+	i := 0
+	if n > 0 {
+		i = g.r.Intn(n)
+	}
+	switch g.r.Intn(12) {
+	case 0:
+		return fmt.Sprintf("(%d).abs()", -i)
+	case 1:
+		return fmt.Sprintf("%d.7", i)
+	case 2:
+		return "last"
+	case 3:
+		return fmt.Sprintf("last - %d", g.r.Intn(3))
+	case 4:
+		return "$n"
+	case 5:
+		return fmt.Sprintf("%d", n+g.r.Intn(2)) // out of range
+	case 6:
+		return fmt.Sprintf("-%d", 1+g.r.Intn(2))
+	case 7:
+		return g.pick(`"1"`, "true", "null", "$tbl", "$s", "$tbl[0]", "(1).type()", "1 ? (@ > 5)", "$.i", "$o.i", "2147483648", "1e308 * 10")
+	default:
+		return fmt.Sprint(i)
+	}
+}
+
+func (g *gen) walkCond(el any, depth int) string {
+	lit := func(v any) string {
+		switch x := v.(type) {
+		case nil:
+			return "null"
+		case bool:
+			return fmt.Sprint(x)
+		case string:
+			b, _ := json.Marshal(x)
+			return string(b)
+		case float64, json.Number, int64:
+			b, _ := json.Marshal(x)
+			if strings.ContainsAny(string(b), "eE") || strings.HasPrefix(string(b), "-") {
+				return "1"
+			}
+			return string(b)
+		}
+		return "1"
+	}
+	op := g.pick("==", "!=", "<", "<=", ">", ">=")
+	switch x := el.(type) {
+	case map[string]any:
+		if len(x) == 0 {
+			return "exists(@.a)"
+		}
+		ks := make([]string, 0, len(x))
+		for k := range x {
+			ks = append(ks, k)
+		}
+		sort.Strings(ks)
+		k := ks[g.r.Intn(len(ks))]
+		v := x[k]
+		switch g.r.Intn(9) {
+		case 0:
+			return "exists(@." + k + ")"
+		case 1:
+			return "@." + k + " " + op + " $tbl[@.i]"
+		case 2:
+			return "$tbl[@.i] " + op + " @." + k
+		case 3:
+			return "@." + k + g.walkStep(v, 0) + " " + op + " " + lit(v)
+		case 4:
+			return "(@." + k + " " + op + " " + lit(v) + ") is unknown"
+		case 5:
+			return "@." + k + " " + op + " " + lit(v) + " " + g.pick("&&", "||") + " @.i " + g.pick("==", ">") + " $n"
+		case 6:
+			return "@." + k + ".date() < \"2024-06-01\".date()"
+		case 7:
+			return "@.keyvalue().value" + g.pick(".integer() > 0", ".double() >= 0", " == "+lit(v), ".type() == \"number\"")
+		default:
+			return "@." + k + " " + op + " " + lit(v)
+		}
+	case []any:
+		return g.pick("@.size() > 1", "@[0] "+op+" 1", "@[*] "+op+" $n", "exists(@[*] ? (@ > 1))", "@[last] == @[0]",
+			"@[*] "+op+" $tbl[*]", "$tbl[*] "+op+" @[*]", "@[*] "+op+" @[*]", "$n "+op+" @[*]", "@[*].type() == \"number\"")
+	case string:
+		return g.pick("@ starts with \"a\"", "@ like_regex \"^[0-9]\"", "@.date() < \"2024-06-01\".date()", "@.datetime() < \"2024-06-01T00:00:00+00\".datetime()",
+			"@.double() > 0", "@ "+op+" $s", "@.time() > \"01:00:00\".time()", "@ == "+lit(x))
+	default:
+		// numbers: also conditions that read the number's text (a json.Number keeps its literal: "1.0", "1e2")
+		txt := "1"
+		if b, err := json.Marshal(x); err == nil {
+			txt = string(b)
+		}
+		if _, isNum := x.(json.Number); isNum && g.chance(0.5) {
+			return g.pick("@.string() == \""+txt+"\"", "@.string() like_regex \"^-?[0-9]+$\"", "@.string().double() == @", "@.string() != \""+txt+"\"", "@.string() like_regex \"[.eE]\"")
+		}
+		return g.pick("@ "+op+" "+lit(x), "@ > $n", "@ == $tbl[$n]", "@.type() == \"number\"", "@ "+op+" 1", "(@ > 1) is unknown", "@.abs() > 1 && @ < 10",
+			"@.string() == \""+txt+"\"", "@.string() like_regex \"^-?[0-9]+$\"", "@.string().double() == @", "@.string() starts with \"1\"", "@.string() "+op+" $s")
+	}
+}
+
+func (g *gen) walkStep(v any, depth int) string {
+	misfit := g.chance(0.15)
+	switch x := v.(type) {
+	case map[string]any:
+		if misfit {
+			return g.pick("[0]", "[*]", ".size()", ".double()", "[1 to 2]", ".zz")
+		}
+		ks := make([]string, 0, len(x))
+		for k := range x {
+			ks = append(ks, k)
+		}
+		sort.Strings(ks)
+		switch c := g.r.Intn(10); {
+		case c < 5 && len(ks) > 0:
+			return "." + ks[g.r.Intn(len(ks))]
+		case c == 5:
+			return ".*"
+		case c == 6:
+			return ".keyvalue()" + g.pick("", ".key", ".value", ".value.integer()", ".value.double()", ".value.a")
+		case c == 7:
+			return g.pick(".**", ".**{1}", ".**{1 to 2}", ".**{last}")
+		case c == 8 && depth > 0:
+			return " ? (" + g.walkCond(v, depth-1) + ")"
+		default:
+			return g.pick(".type()", ".missing", ".a", ".size()")
+		}
+	case []any:
+		if misfit {
+			return g.pick(".a", ".*", ".keyvalue()", ".double()", ".abs()")
+		}
+		n := len(x)
+		switch c := g.r.Intn(10); {
+		case c < 2:
+			return "[*]"
+		case c < 5:
+			return "[" + g.walkIndex(n) + "]"
+		case c == 5:
+			return "[" + g.walkIndex(n) + " to " + g.walkIndex(n) + "]"
+		case c == 6:
+			return "[" + g.walkIndex(n) + "," + g.walkIndex(n) + " to " + g.walkIndex(n) + "]"
+		case c < 9 && depth > 0:
+			var el any
+			if n > 0 {
+				el = x[g.r.Intn(n)]
+			}
+			return g.pick("", "[*]") + " ? (" + g.walkCond(el, depth-1) + ")"
+		default:
+			return g.pick(".size()", ".**", ".**{1}", ".type()", ".**{last}")
+		}
+	case string:
+		if misfit {
+			return g.pick(".a", "[*]", ".abs()", ".keyvalue()", "[0]", ".floor()")
+		}
+		return g.pick(".double()", ".number()", ".integer()", ".bigint()", ".boolean()", ".string()", ".type()", ".datetime()", ".date()", ".time()", ".time_tz()", ".timestamp()", ".timestamp_tz()",
+			".time(1)", ".timestamp_tz(2)", ".decimal(5,2)", ".size()")
+	case bool, nil:
+		return g.pick(".type()", ".string()", ".boolean()", ".double()", ".a", "[0]", ".size()")
+	default: // numbers, datetimes
+		if misfit {
+			return g.pick(".a", "[*]", ".keyvalue()", ".datetime()", ".*")
+		}
+		return g.pick(".double()", ".number()", ".integer()", ".bigint()", ".abs()", ".floor()", ".ceiling()", ".string()", ".type()", ".boolean()",
+			fmt.Sprintf(".decimal(%d,%d)", 1+g.r.Intn(8), g.r.Intn(6)-2), ".decimal(6,-2)", ".decimal(3)", "[0]", "[last]", ".size()", ".string().double()", ".date()", ".time()", ".timestamp()")
+	}
+}
+
+// intify rebuilds v with every integral float64 in the int64 range replaced by the int64 of the same value:
+// documents assembled by Go code carry int64 (a documented input type), decoded JSON never does.
+func intify(v any) any {
+	switch x := v.(type) {
+	case float64:
+		if x == math.Trunc(x) && math.Abs(x) < 9.2e18 && !(x == 0 && math.Signbit(x)) {
+			return int64(x)
+		}
+		return x
+	case []any:
+		out := make([]any, len(x))
+		for i, e := range x {
+			out[i] = intify(e)
+		}
+		return out
+	case map[string]any:
+		out := make(map[string]any, len(x))
+		for k, e := range x {
+			out[k] = intify(e)
+		}
+		return out
+	default:
+		return v
 	}
 }
